@@ -84,6 +84,8 @@ def luhn(L, opt, seps=None, base=48):
             return {'sample': rp()['args'], 'replay': rp()}
         with guard('add_check_digit', 'C15/exception', rp):
             good = SymStr.of(card.add_check_digit(shown))
+        require(len(good.cells) == len(shown.cells) + 1 and SymStr(good.cells[:-1]) == shown,
+                'add_check_digit does not return the number with one digit appended', key='C15/append', replay=rp)
         if what == 'valid':
             with guard('validate_check_digit', 'C15/exception', rp, allow=(AssertionError,)):
                 ok = accepts(card, good)
